@@ -11,6 +11,7 @@ import (
 	"verifharness/c05"
 	"verifharness/c06"
 	"verifharness/c07"
+	"verifharness/c08"
 	"verifharness/c09"
 	"verifharness/c11"
 	"verifharness/c15"
@@ -28,6 +29,7 @@ var runners = map[string]func(*wk.Job, *wk.Worker) error{
 	"c05": c05.Run,
 	"c06": c06.Run,
 	"c07": c07.Run,
+	"c08": c08.Run,
 	"c09": c09.Run,
 	"c11": c11.Run,
 	"c15": c15.Run,
